@@ -146,18 +146,7 @@ def replay(case, scratch):
 
 # ---------------------------------------------------------------- scenarios
 
-class Scenario:
-    def __init__(self, files, specs, links=None, dirs=None, mtimes=None):
-        self.tree = Tree(files, links, dirs, mtimes)
-        self.specs = specs
-        self.post = []        # functions(tree) applied after rendering
-
-    def build(self):
-        t = self.tree.clone()
-        render_layout(t, self.specs)
-        for fn in self.post:
-            fn(t)
-        return t
+from gverif.scen import Scenario  # noqa: E402
 
 
 def names(seed):
@@ -688,10 +677,54 @@ def f7_run(spec, tier, seed, scratch, stats):
                   single=True)
 
 
+# ---- F8: duplicate MANIFEST entries for one real sub-Manifest (different Manifests / same Manifest)
+
+def f8_shards(tier, seed):
+    return [('F8', placement) for placement in ('top+mid', 'mid+top_order', 'same_manifest', 'two_in_dir')]
+
+
+def f8_run(spec, tier, seed, scratch, stats):
+    _f, placement = spec
+    files = {'a/b/x': b'payload', 'a/y': b'why', 'z': b'zed'}
+    leaf = Tree(files)
+    render_layout(leaf, [MSpec('a/b/Manifest', [('F', 'DATA', 'a/b/x', ('SHA1',))])])
+    good = leaf.files['a/b/Manifest']
+    bad = good.replace(b'DATA', b'MISC')          # same size, different content
+    hsets = [(('MD5',), ('SHA512',)), (('MD5',), ('MD5',)), (('MD5', 'SHA1'), ('SHA1', 'SHA512')), ((), ('SHA1',)),
+             (('SHA1',), ())]
+    for (h1, h2), ok1, ok2, vpath in itertools.product(hsets, (True, False), (True, False), ('', 'a', 'a/b')):
+        def ent(rel, hs, ok):
+            return ('E', rm.file_entry('MANIFEST', rel, good if ok else bad, hs))
+        if placement in ('top+mid', 'mid+top_order'):
+            top = [('F', 'DATA', 'z', ('SHA1',)), ('M', 'a/Manifest', ('SHA1',))]
+            mid = [('F', 'DATA', 'a/y', ('SHA1',)), ent('b/Manifest', h2, ok2)]
+            e1 = ent('a/b/Manifest', h1, ok1)
+            top = ([e1] + top) if placement == 'top+mid' else (top + [e1])
+            specs = [MSpec(TOP, top), MSpec('a/Manifest', mid)]
+        elif placement == 'same_manifest':
+            top = [('F', 'DATA', 'z', ('SHA1',)), ('F', 'DATA', 'a/y', ('SHA1',)),
+                   ent('a/b/Manifest', h1, ok1), ent('a/b/Manifest', h2, ok2)]
+            specs = [MSpec(TOP, top)]
+        else:
+            top = [('F', 'DATA', 'z', ('SHA1',)), ('F', 'DATA', 'a/y', ('SHA1',)),
+                   ent('a/b/Manifest', h1, ok1), ('M', 'Manifest.files', ('SHA1',))]
+            specs = [MSpec(TOP, top), MSpec('Manifest.files', [ent('a/b/Manifest', h2, ok2)])]
+        sc = Scenario(files, specs, raw={'a/b/Manifest': good})
+        tree = sc.build()
+        desc = (spec, h1, h2, ok1, ok2, vpath)
+        case = {'tree': tree.to_json(), 'path': vpath, 'desc': repr(desc)}
+        vs, v = check_case(case, scratch, stats)
+        stats.case(desc, nontrivial=v.kind != 'dontcare')
+        if len(stats.samples) < 1 and not ok2:
+            stats.sample({'desc': repr(desc), 'verdict': v.kind})
+        for x in vs:
+            stats.violation(x['sig'], x['case'], x['message'])
+
+
 FAMILIES = {
     'F1': (f1_shards, f1_run), 'F2': (f2_shards, f2_run), 'F2sib': (None, f2_run),
     'F3': (f3_shards, f3_run), 'F4': (f4_shards, f4_run), 'F5': (f5_shards, f5_run),
-    'F6': (f6_shards, f6_run), 'F7': (f7_shards, f7_run),
+    'F6': (f6_shards, f6_run), 'F7': (f7_shards, f7_run), 'F8': (f8_shards, f8_run),
 }
 
 
